@@ -58,6 +58,7 @@ class FuncV:
     via: Optional[Obj] = None
     defcls: Optional[str] = None  # class that defines it (for super())
     acc_cls: Optional[str] = None  # class through which it was looked up (C.method)
+    raw: bool = False  # the undecorated function (used while applying repository decorators)
 
 
 @dataclass(eq=False)
@@ -112,6 +113,31 @@ class _AsType:
     x: Any
 
 
+@dataclass(eq=False)
+class PropV:
+    """a property / functools.cached_property object built by calling the constructor"""
+    fget: Any
+    cached: bool = False
+    name: Optional[str] = None
+
+
+@dataclass(eq=False)
+class _MethodCaller:
+    name: str
+    args: list
+    kwargs: dict
+
+
+class _Identity:
+    """a decorator that returns its argument (functools.wraps(f))"""
+
+
+@dataclass(eq=False)
+class SuppressV:
+    """contextlib.suppress(*exceptions)"""
+    names: tuple
+
+
 class KeysV(list):
     """the keys of a dict at the time of the call (set-like in comparisons)"""
 
@@ -137,6 +163,30 @@ class ShapeV:
 class IterV:
     items: list
     pos: int = 0
+
+
+class _ClassScope(dict):
+    """names visible in a class body: its other attributes and its methods"""
+
+    def __init__(self, it, ci):
+        super().__init__()
+        self.it, self.ci = it, ci
+
+    def __contains__(self, k):
+        return dict.__contains__(self, k) or k in self.ci.attrs or k in self.ci.methods
+
+    def __getitem__(self, k):
+        if dict.__contains__(self, k):
+            return dict.__getitem__(self, k)
+        if k in self.ci.attrs:
+            return self.it.eval_class_attr(self.ci.attrs[k], self.ci.fq)
+        if k in self.ci.methods:
+            m = self.ci.methods[k]
+            return FuncV(m, None, defcls=m.cls)
+        raise KeyError(k)
+
+    def get(self, k, d=None):
+        return self[k] if k in self else d
 
 
 class Return(Exception):
@@ -318,9 +368,12 @@ class Interp:
                             self._in_memo = False
                         memo[key] = r
                         return r
-                elif dn not in ("staticmethod", "classmethod", "property", "abstractmethod", "wraps",
-                                "cache", "lru_cache", "cached_property", "invalidate_cache", "setter",
-                                "override", "overload"):
+                elif dn not in self.KNOWN_DECORATORS and not getattr(fv, "raw", False):
+                    # a decorator of the repository: call what `decorator(function)` evaluates to
+                    deco = self._custom_decorated(fi, self.stack[-1] if self.stack else None)
+                    if isinstance(deco, (FuncV, Closure, Partial)) and not (isinstance(deco, FuncV) and deco.fi is fi):
+                        a2 = ([fv.self_obj] if fv.self_obj is not None else []) + list(args)
+                        return self.call(deco, a2, kwargs, node, self.stack[-1] if self.stack else None)
                     raise self.err(fi.node, f"decorator @{dn} on an analysed function is not modelled")
         self.depth += 1
         if self.depth > 40:
@@ -542,11 +595,23 @@ class Interp:
         if isinstance(st, (ast.Global, ast.Nonlocal)):
             return
         if isinstance(st, ast.With):
+            sup = []
             for item in st.items:
                 v = self.eval(item.context_expr, fr)
+                if isinstance(v, SuppressV):
+                    sup.extend(v.names)
                 if item.optional_vars is not None:
                     self.assign(item.optional_vars, v, fr)
-            self.exec_block(st.body, fr)
+            if not sup:
+                self.exec_block(st.body, fr)
+                return
+            try:
+                self.exec_block(st.body, fr)
+            except Raised as r:
+                exc = r.exc.split(".")[-1]
+                fam = {"KeyError": "LookupError", "IndexError": "LookupError", "ModuleNotFoundError": "ImportError"}
+                if not (exc in sup or fam.get(exc) in sup or "Exception" in sup or "BaseException" in sup):
+                    raise
             return
         raise self.err(st, f"unsupported statement {type(st).__name__}")
 
@@ -1301,9 +1366,15 @@ class Interp:
                 return r
         raise self.err(node, f"membership test on {type(container).__name__}")
 
+    def _mangle(self, attr, fr):
+        """`__name` inside a class body is `_Class__name`"""
+        if attr.startswith("__") and not attr.endswith("__") and fr is not None and fr.defcls:
+            return f"_{fr.defcls.split(':')[-1].lstrip('_')}{attr}"
+        return attr
+
     def e_Attribute(self, n, fr):
         o = self.eval(n.value, fr)
-        return self.getattr(o, n.attr, n, fr)
+        return self.getattr(o, self._mangle(n.attr, fr), n, fr)
 
     def getattr(self, o, attr, node, fr):
         if isinstance(o, Obj):
@@ -1319,18 +1390,47 @@ class Interp:
                         return self.class_overlay[(c, attr)]
             # class attribute / method / property through the MRO
             m = self.prog.lookup_method(o.cls, attr) if o.cls in self.prog.classes else None
+            if m is None and attr.startswith("_") and "__" in attr[1:] and o.cls in self.prog.classes:
+                # a name-mangled private method `_Class__name`
+                cname, _, rest = attr[1:].partition("__")
+                for c in self.prog.mro(o.cls):
+                    if c.split(":")[-1].lstrip("_") == cname and ("__" + rest) in self.prog.classes[c].methods:
+                        m = self.prog.classes[c].methods["__" + rest]
+                        break
             if m is not None:
+                deco = self._custom_decorated(m, fr)
+                if deco is not NotImplemented:
+                    if isinstance(deco, PropV):
+                        return self._prop_get(deco, o, attr, node, fr)
+                    if isinstance(deco, (FuncV, Closure, Partial)):
+                        return Partial(deco, (o,), {})
+                    return deco
                 if m.is_property():
                     return self.call_function(FuncV(m, o, defcls=m.cls), [], {}, node)
                 if _is_classmethod(m):
                     return FuncV(m, ClassV(o.cls), defcls=m.cls)
                 return FuncV(m, None if m.is_static() else o, defcls=m.cls)
             ca, owner = self.prog.lookup_class_attr(o.cls, attr) if o.cls in self.prog.classes else (None, None)
+            if ca is None and attr.startswith("_") and "__" in attr[1:] and o.cls in self.prog.classes:
+                cname, _, rest = attr[1:].partition("__")  # name-mangled class attribute
+                for c in self.prog.mro(o.cls):
+                    if c.split(":")[-1].lstrip("_") == cname and ("__" + rest) in self.prog.classes[c].attrs:
+                        ca, owner = self.prog.classes[c].attrs["__" + rest], c
+                        break
             if ca is not None:
-                return self.eval_class_attr(ca, owner)
+                v = self.eval_class_attr(ca, owner)
+                if isinstance(v, PropV):
+                    return self._prop_get(v, o, attr, node, fr)
+                if isinstance(v, FuncV) and v.self_obj is None and not (
+                        isinstance(v.fi.node, ast.FunctionDef) and v.fi.is_static()):
+                    # `alias = other_method` in the class body: bound like a method
+                    return FuncV(v.fi, o, via=v.via, defcls=v.defcls)
+                if isinstance(v, Closure):
+                    return Partial(v, (o,), {})
+                return v
             if attr == "__class__":
                 return ClassV(o.cls)
-            raise Raised("AttributeError", node, fr.fi, f"{o!r} has no attribute {attr}")
+            raise Raised("AttributeError", node, fr.fi if fr else None, f"{o!r} has no attribute {attr}")
         if isinstance(o, ClassV):
             if attr == "__name__":
                 return o.fq.split(":")[-1]
@@ -1358,6 +1458,22 @@ class Interp:
                     return _Const(None)  # object.__init__
                 raise Raised("AttributeError", node, fr.fi, f"super() has no {attr}")
             return FuncV(m, o.obj, defcls=m.cls)
+        if isinstance(o, (FuncV, Closure)):
+            fi_ = o.fi if isinstance(o, FuncV) else getattr(o, "fi", None)
+            nm_ = fi_.name if fi_ is not None else "<lambda>"
+            if attr == "__name__":
+                return nm_
+            if attr == "__qualname__":
+                return fi_.qualname if fi_ is not None else nm_
+            if attr == "__doc__":
+                return ast.get_docstring(fi_.node) if fi_ is not None and isinstance(fi_.node, ast.FunctionDef) else None
+            if attr in ("__annotations__", "__dict__"):
+                return {}
+            if attr == "__module__":
+                return fi_.module if fi_ is not None else None
+            if attr == "__wrapped__" and isinstance(o, FuncV):
+                return o
+            raise Raised("AttributeError", node, fr.fi if fr else None, f"function has no attribute {attr}")
         if isinstance(o, ExtMod):
             if self.world is not None:
                 r = self.world.module_attr(self, o.name, attr, node)
@@ -1421,6 +1537,52 @@ class Interp:
                          f"'{type(o).__name__}' object has no attribute '{attr}'")
         raise self.err(node, f"attribute {attr} of {type(o).__name__}")
 
+    KNOWN_DECORATORS = ("staticmethod", "classmethod", "property", "abstractmethod", "wraps", "cache", "lru_cache",
+                        "cached_property", "invalidate_cache", "setter", "override", "overload")
+
+    def _custom_decorated(self, m, fr):
+        """what a method decorated with a decorator *of the repository* evaluates to
+        (`decorator(function)`, innermost first); NotImplemented for the known decorators"""
+        decs = getattr(m.node, "decorator_list", [])
+        custom = [d for d in decs if (dotted_name(d.func if isinstance(d, ast.Call) else d) or "").split(".")[-1]
+                  not in self.KNOWN_DECORATORS]
+        if not custom:
+            return NotImplemented
+        memo = self.__dict__.setdefault("_decorated", {})
+        if m.fq in memo:
+            return memo[m.fq]
+        ci = self.prog.classes.get(m.cls) if m.cls else None
+        fn = ast.FunctionDef(name="<class body>", args=ast.arguments(posonlyargs=[], args=[], kwonlyargs=[],
+                                                                     kw_defaults=[], defaults=[]),
+                             body=[], decorator_list=[], lineno=m.node.lineno, col_offset=0)
+        fi = FunctionInfo(m.module, "<class body>", fn, cls=None)
+        fr2 = Frame(fi, _ClassScope(self, ci) if ci is not None else {}, defcls=m.cls)
+        val = FuncV(m, None, defcls=m.cls)
+        val.raw = True  # call the undecorated body
+        self.stack.append(fr2)
+        try:
+            for d in reversed(decs):
+                dn = (dotted_name(d.func if isinstance(d, ast.Call) else d) or "").split(".")[-1]
+                if dn in ("property",):
+                    val = PropV(val, False, m.name)
+                elif dn == "cached_property":
+                    val = PropV(val, True, m.name)
+                elif dn in self.KNOWN_DECORATORS:
+                    continue
+                else:
+                    val = self.call(self.eval(d, fr2), [val], {}, d, fr2)
+        finally:
+            self.stack.pop()
+        memo[m.fq] = val
+        return val
+
+    def _prop_get(self, p: "PropV", o, attr, node, fr):
+        def compute():
+            return self.call(p.fget, [o], {}, node, fr)
+        if p.cached and self.world is not None and hasattr(self.world, "cached_property_get"):
+            return self.world.cached_property_get(self, o, attr, compute)
+        return compute()
+
     def eval_class_attr(self, ca, owner):
         fr = Frame(None, {})
         # class attributes are sets/tuples of strings or constants
@@ -1433,8 +1595,29 @@ class Interp:
         if isinstance(ca, (ast.Tuple, ast.List)):
             return tuple(e.value for e in ca.elts if isinstance(e, ast.Constant))
         if isinstance(ca, ast.Dict) and not ca.keys:
-            return {}
-        raise AnalysisError(f"unsupported class attribute value in {owner}: {short(ca)}")
+            # one dict per class, shared by all instances (per interpreter = per process)
+            memo = self.__dict__.setdefault("_classvals", {})
+            if id(ca) not in memo:
+                memo[id(ca)] = (ca, {})
+            return memo[id(ca)][1]
+        # anything else (a tuple of names, a call of a factory, property(...), ...) is evaluated
+        # once in the scope of the class body
+        memo = self.__dict__.setdefault("_classvals", {})
+        if id(ca) in memo:
+            return memo[id(ca)][1]
+        ci = self.prog.classes[owner]
+        fn = ast.FunctionDef(name="<class body>", args=ast.arguments(posonlyargs=[], args=[], kwonlyargs=[],
+                                                                     kw_defaults=[], defaults=[]),
+                             body=[], decorator_list=[], lineno=getattr(ca, "lineno", 1), col_offset=0)
+        fi = FunctionInfo(ci.module, f"{ci.name}.<class body>", fn, cls=None)
+        fr2 = Frame(fi, _ClassScope(self, ci), defcls=owner)
+        self.stack.append(fr2)
+        try:
+            v = self.eval(ca, fr2)
+        finally:
+            self.stack.pop()
+        memo[id(ca)] = (ca, v)
+        return v
 
     def e_Subscript(self, n, fr):
         c = self.eval(n.value, fr)
@@ -1620,6 +1803,11 @@ class Interp:
             return self.call_closure(f, args, kwargs, n)
         if isinstance(f, _Const):
             return f.v
+        if isinstance(f, _Identity):
+            return args[0]
+        if isinstance(f, _MethodCaller):
+            m = self.getattr(args[0], f.name, n, fr)
+            return self.call(m, list(f.args), dict(f.kwargs), n, fr)
         if isinstance(f, _AsType):
             dt = args[0] if args else kwargs.get("dtype")
             x = f.x
@@ -1857,6 +2045,25 @@ class Interp:
                 except Raised:
                     return False
             return False
+        if name == "setattr":
+            o, a, v = args
+            if isinstance(o, Obj) and isinstance(a, str):
+                if self.world is not None:
+                    self.world.on_setattr(self, o, a, v, n)
+                o.attrs[a] = v
+                return None
+            raise self.err(n, "setattr on an unsupported value")
+        if name == "delattr":
+            o, a = args
+            if isinstance(o, Obj) and isinstance(a, str):
+                if a not in o.attrs:
+                    raise Raised("AttributeError", n, fr.fi, a)
+                del o.attrs[a]
+                return None
+            raise self.err(n, "delattr on an unsupported value")
+        if name == "property":
+            fget = args[0] if args else kwargs.get("fget")
+            return PropV(fget, False)
         if name == "getattr":
             o, a = args[0], args[1]
             try:
@@ -2146,15 +2353,49 @@ class Interp:
 
         if name == "functools.partial":
             return Partial(args[0], tuple(args[1:]), dict(kwargs))
+        if name == "functools.cached_property":
+            return PropV(args[0], True, getattr(getattr(args[0], "fi", None), "name", None))
+        if name == "functools.wraps":
+            return _Identity()
         if name == "functools.reduce":
             items = self.iterate(args[1], n, fr)
             acc = args[2] if len(args) > 2 else items.pop(0)
             for x in items:
                 acc = self.call(args[0], [acc, x], {}, n, fr)
             return acc
+        if name in ("contextlib.suppress", "suppress"):
+            names = []
+            for a in args:
+                names.append(a.name if isinstance(a, Builtin) else a.fq.split(":")[-1] if isinstance(a, ClassV) else str(a))
+            return SuppressV(tuple(names))
         if name.startswith("operator."):
-            op = {"add": ast.Add(), "sub": ast.Sub(), "mul": ast.Mult(), "truediv": ast.Div(), "pow": ast.Pow()}.get(
+            op = {"add": ast.Add(), "sub": ast.Sub(), "mul": ast.Mult(), "truediv": ast.Div(), "pow": ast.Pow(),
+                  "iadd": ast.Add(), "isub": ast.Sub(), "imul": ast.Mult(), "itruediv": ast.Div()}.get(
                 name.split(".")[1])
+            if op is not None and name.split(".")[1].startswith("i") and isinstance(args[0], TV) \
+                    and self.lib == "numpy" and not args[0].fresh and args[0].rank != 0:
+                # operator.iadd(x, y) is `x += y`: in place on NumPy arrays
+                self.event("mutates-shared", n, f"`{short(n, 60)}` updates its first operand in place, which may "
+                                                f"alias data owned by the caller or an element state")
+            if name in ("operator.is_", "operator.is_not"):
+                same = args[0] is args[1]
+                return same if name.endswith("is_") else not same
+            if name == "operator.not_":
+                return not self.truth(args[0], n, fr)
+            if name == "operator.truth":
+                return self.truth(args[0], n, fr)
+            if name == "operator.contains":
+                return self.contains(args[0], args[1], n, fr)
+            if name == "operator.getitem":
+                c, k = args
+                if isinstance(c, (list, tuple, dict, str)):
+                    try:
+                        return c[k]
+                    except (KeyError, IndexError) as ex:
+                        raise Raised(type(ex).__name__, n, fr.fi, repr(k))
+            if name == "operator.methodcaller":
+                mname, margs = args[0], list(args[1:])
+                return Closure(None, None, None) if False else _MethodCaller(mname, margs, dict(kwargs))
             if op is not None:
                 return self.binop(op, args[0], args[1], n)
             if name == "operator.neg":
@@ -2367,5 +2608,5 @@ PY_BUILTINS = {
     "len", "any", "all", "isinstance", "iter", "next", "hasattr", "getattr", "list",
     "tuple", "dict", "zip", "enumerate", "range", "float", "int", "bool", "abs", "round",
     "max", "min", "sum", "sorted", "reversed", "type", "str", "id", "print", "set",
-    "frozenset", "super", "map", "filter", "callable",
+    "frozenset", "super", "map", "filter", "callable", "setattr", "delattr", "property",
 }
